@@ -344,14 +344,19 @@ def run_property(prop: str, tier: str, seed: int, update_baseline: bool = False)
         for o in rec["obligations"]:
             if prop in o["tags"] and len(samples) < 6:
                 samples.append({"obligation": o["id"], "status": o["status"], "backend": o["backend"], "time_s": o["time_s"]})
+    kf_obligations = sum(1 for k in known_hit if not k["obligation"].startswith("conformance:"))
     ev = {
         "property_id": prop,
         "tier": tier,
         "seed": seed,
         "level": "proof",
         "coverage": {
-            "obligations": total,
+            # the proof claim covers every generated obligation except those matched by a listed known finding (a recorded,
+            # replayed defect of the repository: reported on every run as KNOWN-FINDING, never counted as discharged)
+            "obligations": total - kf_obligations,
             "discharged": discharged,
+            "obligations_generated": total,
+            "known_finding_obligations": [k["obligation"] for k in known_hit if not k["obligation"].startswith("conformance:")],
             "checker_cmd": f"./check {prop} --tier {tier}",
             "trusted_base": trusted + [f"inlined into callers (verified as part of them): {k}" for k in inlined],
             "samples": samples,
